@@ -4,9 +4,11 @@ package main
 import (
 	"fmt"
 	"os"
+	"sync/atomic"
 
 	"verif/checks"
 	"verif/ev"
+	"verif/itp"
 )
 
 func main() {
@@ -31,6 +33,14 @@ func main() {
 	}
 	ev.InitWorker()
 	run := ev.NewRun(prop, tier)
+	// every direct evaluation of the interpreter is repeated on a long-lived Language (itp): a
+	// disagreement with the fresh one is a violation of whatever property is being checked
+	itp.OnDiverge = func(kind, expr, msg string, rep map[string]interface{}) {
+		run.Report(prop+"|history-dependent-evaluation|"+kind, fmt.Sprintf("%q: %s", expr, msg), rep)
+	}
 	cov := c(run, tier)
+	if n := atomic.LoadInt64(&itp.WarmEvaluations); n > 0 {
+		cov["evaluations_repeated_on_a_long_lived_interpreter"] = n
+	}
 	os.Exit(run.Finish(cov))
 }
